@@ -10,6 +10,7 @@ import (
 	"time"
 
 	"github.com/pgavlin/dawn/diff"
+	"github.com/pgavlin/dawn/internal/verifhook"
 	"github.com/pgavlin/dawn/label"
 	"github.com/pgavlin/dawn/runner"
 	"go.starlark.net/starlark"
@@ -132,7 +133,13 @@ func (t *runTarget) Evaluate(engine runner.Engine) error {
 	}
 
 	// Otherwise, evaluate the target.
+	if verifhook.Enabled {
+		verifhook.At("eval.before_body", label.String())
+	}
 	data, changed, err := t.target.evaluate()
+	if verifhook.Enabled {
+		verifhook.At("eval.after_body", label.String(), err == nil)
+	}
 	if err != nil {
 		proj.events.TargetFailed(label, err)
 
@@ -164,6 +171,9 @@ func (t *runTarget) Evaluate(engine runner.Engine) error {
 	if err != nil {
 		proj.events.TargetFailed(label, err)
 		return err
+	}
+	if verifhook.Enabled {
+		verifhook.At("eval.recorded", label.String())
 	}
 	proj.events.TargetSucceeded(label, changed)
 	return nil
